@@ -89,7 +89,7 @@ def pools(lang):
             "prelude": CPP_STD, "locals": CPP_LOCALS, "special": CPP_SPECIAL}
 
 
-def gen_world(rng, lang="rust", n_adv=None, force=None, features=("resource", "flags", "list", "variant")):
+def gen_world(rng, lang="rust", n_adv=None, force=None, features=("resource", "flags", "list", "variant"), small=False):
     """force: list of (slot, name, pool) to inject instead of random choices."""
     ng = NameGen(rng)
     P = pools(lang)
@@ -139,7 +139,7 @@ def gen_world(rng, lang="rust", n_adv=None, force=None, features=("resource", "f
     ns, pkg = nm("pkgns"), nm("pkgname")
     lines.append(f"package {esc(ns)}:{esc(pkg)};")
     ifaces = []
-    n_if = rng.choice([1, 1, 2])
+    n_if = 1 if small else rng.choice([1, 1, 2])
     for k in range(n_if):
         names = take_all("iface", nm("iface")) if k == 0 else [nm("iface")]
         for iname in names:
@@ -207,6 +207,10 @@ def gen_world(rng, lang="rust", n_adv=None, force=None, features=("resource", "f
                 res = rng.choice(["", f" -> {esc(vt)}", " -> string", f" -> result<{esc(rt)}, {esc(et)}>", " -> list<string>",
                                   f" -> tuple<u32, {esc(rt)}>"])
                 L.append(f"  {esc(fn)}: func({params}){res};")
+            # every declared type is used in both directions, so that the generator emits all of them
+            ua = ng.fresh()
+            L.append(f"  {ua}: func(p1: {esc(rt)}, p2: {esc(vt)}, p3: {esc(et)}, p4: {esc(ft)}, p5: {esc(al)}"
+                     + "".join(f", q{k}: {esc(x)}" for k, x in enumerate(rts[1:])) + f") -> tuple<{esc(rt)}, {esc(vt)}, {esc(et)}, {esc(ft)}, {esc(al)}>;")
             L.append("}")
             lines += L
     scope("ifaces", "package", "snake", ifaces)
@@ -214,7 +218,7 @@ def gen_world(rng, lang="rust", n_adv=None, force=None, features=("resource", "f
     L = [f"world {esc(w)} {{"]
     for iname in ifaces:
         L.append(f"  import {esc(iname)};")
-    exp_if = [i for i in ifaces if rng.random() < 0.7] or ifaces[:1]
+    exp_if = [i for i in ifaces if rng.random() < (0.35 if small else 0.7)] or ([] if small else ifaces[:1])
     for iname in exp_if:
         L.append(f"  export {esc(iname)};")
     wf = take_all("wfunc", nm("wfunc"))
